@@ -138,6 +138,17 @@ func triple(r *hx.Run, sc *scheme, strs [3]string) {
 			}
 		}
 	}
+	if sc.name == "maven" && allok {
+		// the fragment of the transitivity theorem, as the harness classifies it,
+		// against the model's definition (Maven.compat)
+		for i := 0; i < 3; i++ {
+			for j := i + 1; j < 3; j++ {
+				c := mavenCompat(t[i], t[j])
+				r.Op("mvncompat "+hexs(strs[i])+" "+hexs(strs[j]), c, true)
+				r.Count("maven:compat:" + c)
+			}
+		}
+	}
 	distinct := strs[0] != strs[1] && strs[1] != strs[2] && strs[0] != strs[2]
 	r.Case(sc.name+" laws "+q(strs[0])+" "+q(strs[1])+" "+q(strs[2]), allok && distinct)
 	if !allok {
@@ -224,16 +235,31 @@ func Run(cfg hx.Config) error {
 		return err
 	}
 
-	n := cfg.N(1500, 60000)
+	n := cfg.N(1500, 50000)
 	for _, sc := range schemes {
 		for i := 0; i < n && !r.Stop(); i++ {
 			f := newFamily(rnd)
-			triple(r, sc, [3]string{sc.gen(f), sc.gen(f), sc.gen(f)})
+			a := sc.gen(f)
+			b, c := sc.gen(f), sc.gen(f)
+			// half of the triples are one text and two small edits of it (or of each other)
+			switch rnd.Intn(4) {
+			case 0:
+				b = f.mutate(a, sc.name)
+				c = f.mutate(a, sc.name)
+				r.Count(sc.name + ":triple:edits-of-one")
+			case 1:
+				b = f.mutate(a, sc.name)
+				c = f.mutate(b, sc.name)
+				r.Count(sc.name + ":triple:edit-chain")
+			default:
+				r.Count(sc.name + ":triple:family")
+			}
+			triple(r, sc, [3]string{a, b, c})
 		}
 	}
-	genericRun(r, rnd, cfg.N(3000, 120000))
-	pepExtra(r, rnd, cfg.N(3000, 120000))
-	projections(r, rnd, cfg.N(4000, 150000))
+	genericRun(r, rnd, cfg.N(3000, 100000))
+	pepExtra(r, rnd, cfg.N(3000, 100000))
+	projections(r, rnd, cfg.N(4000, 120000))
 
 	r.Notes["schemes"] = []string{"claircore.Version", "pkg/pep440", "ruby (gem)", "java (maven)", "pkg/rhctag", "go-rpm-version", "FromSemver"}
 	r.Notes["triples_per_scheme"] = n
